@@ -163,8 +163,11 @@ def run_emptied_case(purge, driver, stats, add):
     """A stale app whose models were all deleted by its own evolution
     earlier: its (empty) signature entry must still be purgeable."""
     stats['cases'] += 1
+    # ... next to a second stale app that still owns a table (the emptied
+    # one comes first in the signature)
     v0 = P(A('va', [M('Item', [F('name', 'Char', max_length=20)])]),
-           A('vx', [M('Gone', [F('n', 'Int', null=True)])]))
+           A('vx', [M('Gone', [F('n', 'Int', null=True)])]),
+           A('vy', [M('Still', [F('s', 'Char', max_length=20)])]))
     hist = EB.History(v0, [('vx', 'e1', [['DeleteModel', 'Gone']])])
     hist.install(0)
     B.fresh_db('default')
@@ -205,9 +208,11 @@ def run_emptied_case(purge, driver, stats, add):
         add('C15|emptied-app|run-fails|%s|%s' % (res.exc_type, shape),
             replay, {'error': str(res.exc)[:300]})
         return
-    if set(O.list_tables('default')) != before_tables:
-        add('C15|emptied-app|tables-changed|%s' % shape, replay, {})
-    want = sorted(set(before_ids) - {'vx'}) if purge else before_ids
+    want_tables = before_tables - ({'vy_still'} if purge else set())
+    if set(O.list_tables('default')) != want_tables:
+        add('C15|emptied-app|tables-wrong|%s' % shape, replay,
+            {'got': sorted(set(O.list_tables('default')) ^ want_tables)})
+    want = sorted(set(before_ids) - {'vx', 'vy'}) if purge else before_ids
     got = stored_app_ids()
     if got != want:
         add('C15|emptied-app|stored-signature-apps-wrong|%s' % shape,
@@ -359,6 +364,70 @@ def run_retire_case(driver, stats, add):
             {'recorded': rec})
 
 
+def run_legacy_keyed_case(driver, stats, add):
+    """An installed app whose label differs from its package and whose
+    stored signature entry is still keyed by the legacy (module) label, as
+    older releases wrote it: a purge must not take it for a stale app."""
+    from django_evolution.models import Version
+    stats['cases'] += 1
+    va = A('va', [M('Item', [F('name', 'Char', max_length=20)])])
+    va['package'] = 'vapkg'
+    vb = A('vb', [M('Other', [F('x', 'Int', null=True)])])
+    project = P(va, vb)
+    evos = {'va': {'SEQUENCE': [], 'modules': {}},
+            'vb': {'SEQUENCE': [], 'modules': {}}}
+    MZ.install(project, evolutions=evos)
+    B.fresh_db('default')
+    B.reset_globals()
+    r = D.d2_all()
+    replay = {'scenario': 'legacy-keyed-app', 'driver': driver}
+    if not r.ok:
+        add('C15|legacy-keyed-app|setup-fails|%s' % r.exc_type, replay,
+            {'error': str(r.exc)[:200]})
+        return
+    from vf import rows as RW
+    RW.populate(project, 'R2', 'default')
+    sig = D.stored_signature().clone()
+    app = sig.get_app_sig('va')
+    sig.remove_app_sig('va')
+    app.app_id = 'vapkg'
+    app.legacy_app_label = 'vapkg'
+    sig.add_app_sig(app)
+    Version(signature=sig).save()
+    before_tables = set(O.list_tables('default'))
+    image = O.raw_table_image('va_item')
+    B.reset_globals()
+    # (moving the entry to the new label takes a RenameAppLabel evolution,
+    # which this project does not ship: only the purge is requested)
+    from django_evolution.evolve import Evolver
+    res = D.RunResult()
+    try:
+        ev = Evolver()
+        ev.queue_purge_old_apps()
+        if driver == 'D2' or ev.get_evolution_required():
+            ev.evolve()
+        res.ok = True
+    except Exception as e:
+        res.exc, res.exc_type = e, type(e).__name__
+        D._abort_transactions('default')
+    stats['runs'] += 1
+    if not res.ok:
+        add('C15|legacy-keyed-app|run-fails|%s|%s' % (res.exc_type, driver),
+            replay, {'error': str(res.exc)[:300]})
+        return
+    dropped = before_tables - set(O.list_tables('default'))
+    if dropped:
+        add('C15|legacy-keyed-app|installed-app-purged|%s' % driver, replay,
+            {'dropped': sorted(dropped)})
+    elif O.raw_table_image('va_item') != image:
+        add('C15|legacy-keyed-app|other-table-modified|%s' % driver, replay,
+            {})
+    stored = D.stored_signature()
+    if stored.get_app_sig('vapkg') is None:
+        add('C15|legacy-keyed-app|stored-signature-apps-wrong|%s' % driver,
+            replay, {'got': stored_app_ids()})
+
+
 def judge_delete(node, step, tr):
     out = []
     for fp, detail in c01.judge(node, step, tr):
@@ -387,6 +456,10 @@ def work(task):
             for driver in ('D3', 'D2'):
                 run_emptied_case(purge, driver, stats, add)
         stats['samples'].append({'scenario': 'emptied-app'})
+    elif kind == 'legacy-keyed-app':
+        for driver in ('D3', 'D2'):
+            run_legacy_keyed_case(driver, stats, add)
+        stats['samples'].append({'scenario': 'legacy-keyed-app'})
     elif kind == 'retire-app':
         for driver in ('D3', 'D2'):
             run_retire_case(driver, stats, add)
@@ -431,6 +504,7 @@ def run(tier, seed, confirm=True):
     tasks.append(('emptied',))
     tasks.append(('migrations-app',))
     tasks.append(('retire-app',))
+    tasks.append(('legacy-keyed-app',))
     total = {}
     coll = findings.Collector(PROP)
     for stats, viol in explore.run_tasks('vf.checks.c15.work', tasks,
@@ -472,6 +546,8 @@ def replay(path):
     stats = {'cases': 0, 'runs': 0}
     if r.get('scenario') == 'emptied-app':
         run_emptied_case(r['purge'], r['driver'], stats, add)
+    elif r.get('scenario') == 'legacy-keyed-app':
+        run_legacy_keyed_case(r['driver'], stats, add)
     elif r.get('scenario') == 'retire-app':
         run_retire_case(r['driver'], stats, add)
     elif r.get('scenario') == 'migrations-app':
